@@ -12,6 +12,7 @@ graphs of generated traces, also after re-weighting edges and recomputing (the w
 from __future__ import annotations
 
 import ast
+import os
 import random
 from typing import Any, Dict, List
 
@@ -267,8 +268,34 @@ def _case(seed: int) -> Dict[str, Any]:
     inst = 0 if seed % 2 else (0, 1)
     if seed < 0:  # crafted: -1 .. -4
         evs, inst = _sync_return_tie_events(slack=(0 if seed in (-1, -2) else 1), record_first=seed in (-1, -3)), 0
+    ns = seed >= 0 and seed % 5 == 4
+    if ns:
+        # a nanosecond-resolution capture analysed with HTA_DISABLE_NS_ROUNDING=1: every instant and duration scaled by 1/8 around the start of the
+        # file (exact in binary), so spans of 0.625 us and the like reach the graph; the structure (nesting, causality, ties) is unchanged
+        b0 = min(e["ts"] for e in evs if "ts" in e and e.get("ph") == "X")
+        for e in evs:
+            if e.get("ph") == "X":
+                e["ts"] = b0 + (e["ts"] - b0) * 0.125
+                e["dur"] = e["dur"] * 0.125
+        old_env = os.environ.get("HTA_DISABLE_NS_ROUNDING")
+        os.environ["HTA_DISABLE_NS_ROUNDING"] = "1"
+        try:
+            return _case_run(seed, evs, inst, rng)
+        finally:
+            if old_env is None:
+                os.environ.pop("HTA_DISABLE_NS_ROUNDING", None)
+            else:
+                os.environ["HTA_DISABLE_NS_ROUNDING"] = old_env
+    return _case_run(seed, evs, inst, rng)
+
+
+def _case_run(seed: int, evs, inst, rng) -> Dict[str, Any]:
+    from hv import rt
+
     fails: List[Dict[str, Any]] = []
     inp = {"seed": seed, "instance_id": inst, "events": {0: evs}}
+    if os.environ.get("HTA_DISABLE_NS_ROUNDING") == "1":
+        inp["environment"] = {"HTA_DISABLE_NS_ROUNDING": "1"}
     n = 0
     with rt.trace_dir({0: evs}) as d:
         try:
